@@ -202,6 +202,8 @@ def plan_C18(p, tier, seed):
     from . import lemmas_misc as _lm
     u = p.add(CustomUnit("text-codec", _lm.text_codec_unit, (), props=(p.prop,)))
     p.replayers[u.name] = _lm.replay_text_codec
+    p.assumptions += ["get_bits is proved for bit fields of 1..8 bytes and masks below 2**64 (its precondition in the "
+                      "contract); wider arguments - no caller inside the library - are outside the proof"]
     p.min_obligations = 300
     p.instances = {"type_constants": len(types)}
     p.exhaustive = True
@@ -625,7 +627,10 @@ def _kw_units(p, select):
 T_KW = ("keyword mode: the keyword map is a ghost map name -> (present, value); every attribute of the selected definition "
         "may be supplied with a symbolic in-range value of its kind or omitted (merged as `present ? value : nominal`); "
         "repeated attributes are indexed families; counted groups take the supplied size attribute as their count and are "
-        "cut per arbitrary repeat (the repeat appends exactly G bytes that decode to the keyword values of index i+1)")
+        "cut per arbitrary repeat (the repeat appends exactly G bytes that decode to the keyword values of index i+1). "
+        "Narrowings of this mode: keyword builds are explored with parsebitfield=True only (flags supplied one by one, "
+        "never a raw bitfield value); by-name / by-integer addressing is explored without payload only; the per-field "
+        "contract of _set_attribute_single is proved for a top-level, non-_HP attribute name")
 
 
 def plan_C03(p, tier, seed):
@@ -811,7 +816,7 @@ def plan_C14(p, tier, seed):
     p.add(GroundUnit("ground.C14/name-id-agreement", configdb.name_id_agreement, (), props=("C14",)))
     for mode, key in ((0, b"\x06\x8b"), (1, b"\x06\x8a")):
         u = CustomUnit(f"init[{inst.MODES[mode]}:{key.hex()}]", inst.init_unit, (mode, key), props=("C14",), cost=100)
-        u.select = r"(_set_attribute_cfgval/loop1:|/raises:|call-pre:cfgkey2name)"
+        u.select = r"(_set_attribute_cfgval/loop1:|/raises:|call-pre:cfgkey2name|/C14:item:)"
         p.add(u)
         p.replayers[u.name] = inst.replay_instance
     p.add(BoundedUnit("bounded.C14/config-build-parse", bounded.config_roundtrip, (tier, seed), props=("C14",)))
